@@ -67,7 +67,7 @@ def prove(tag: str, prelude: str, obls: list[dict], shards: int = 8, timeout: in
             ax = _parse_assumptions(out)
             if len(ax) != len(part):
                 ax = ax + [["<unparsed>"]] * (len(part) - len(ax))
-            return [dict(name=o["name"], what=o.get("what", ""), ok=True, axioms=a, err="", secs=secs)
+            return [dict(name=o["name"], what=o.get("what", ""), ok=True, axioms=a, err="", secs=round(secs, 1))
                     for o, a in zip(part, ax)]
         # isolate the failing obligations
         res = []
@@ -88,7 +88,7 @@ def prove(tag: str, prelude: str, obls: list[dict], shards: int = 8, timeout: in
                                 err=(err1 or out1)[-1500:], diag=d, secs=secs1))
         return res
 
-    with cf.ThreadPoolExecutor(max_workers=min(8, shards)) as ex:
+    with cf.ThreadPoolExecutor(max_workers=min(14, shards)) as ex:
         for part_res in ex.map(one, list(enumerate(parts))):
             for r in part_res:
                 results[r["name"]] = r
